@@ -68,4 +68,98 @@ theorem transG_lt (st : Option Nat) (p : Nat) : (transG st p).1 < 16 := by
   unfold transG
   exact merge_lt grPacked 16 grAny prAny _ gr_cells (by decide) st p
 
+/-- word states (with the ZWJ bit) fit `maskWordState` -/
+theorem transWK_lt (st : Option Nat) (hst : ∀ s, st = some s → s < 32) (p : Nat) (g : Bool) (k : Bool × Bool × Bool) :
+    (transWK st p g k).1 < 32 := by
+  have hm : ∀ st' : Option Nat, (merge wbPacked wbAny prAny (wbAny, 1, 9990) st' p).1 < 32 := by
+    intro st'
+    have := merge_lt wbPacked 16 wbAny prAny (wbAny, 1, 9990) wb_cells (by decide) st' p
+    omega
+  have hor : ∀ s, s < 32 → s ||| wbZWJBit < 32 := by
+    intro s hs
+    exact Nat.or_lt_two_pow (n := 5) hs (by decide)
+  unfold transWK
+  cases st with
+  | none =>
+    dsimp only [Option.isNone_none, Option.getD_none, Option.map_none]
+    repeat' split
+    all_goals (try dsimp only)
+    all_goals first | decide | exact hm none
+  | some s =>
+    have hs := hst s rfl
+    dsimp only [Option.isNone_some, Option.getD_some, Option.map_some]
+    repeat' split
+    all_goals (try dsimp only)
+    all_goals first | decide | exact hm _ | exact hor s hs | exact Nat.lt_of_le_of_lt Nat.and_le_left hs
+
+/-- sentence states fit `maskSentenceState` -/
+theorem transS_lt (st : Option Nat) (hst : ∀ s, st = some s → s < 16) (p : Nat) (sl : Bool) :
+    (transS st p sl).1 < 16 := by
+  unfold transS
+  cases st with
+  | none =>
+    dsimp only
+    repeat' split
+    all_goals (try dsimp only)
+    all_goals first | decide | exact merge_lt sbPacked 16 sbAny prAny (sbAny, 0, 9990) sb_cells (by decide) _ p
+  | some s =>
+    have hs := hst s rfl
+    dsimp only
+    repeat' split
+    all_goals (try dsimp only)
+    all_goals first | decide | exact hs | exact merge_lt sbPacked 16 sbAny prAny (sbAny, 0, 9990) sb_cells (by decide) _ p
+
+/-- finite fact: stripping the two flag bits from a state below 256 leaves a state below 64 -/
+theorem lbStrip_lt : ∀ s, s < 256 → (match (lbStrip (some s)).1 with | some s' => decide (s' < 64) | none => false) = true :=
+  fun s hs => List.all_eq_true.mp (by decide +kernel :
+    (List.range 256).all (fun s => match (lbStrip (some s)).1 with | some s' => decide (s' < 64) | none => false) = true) s
+      (List.mem_range.mpr hs)
+
+theorem lbFin_lt (x : LbIn) (a b : Bool) (res : Nat × Nat) (h : res.1 < 128) : (lbFin x a b res).1 < 256 := by
+  unfold lbFin
+  have hor : res.1 ||| lbCPeaFWHBit < 256 := Nat.or_lt_two_pow (n := 8) (by omega) (by decide)
+  simp only
+  repeat' split
+  all_goals first | exact hor | omega
+
+set_option maxHeartbeats 4000000 in
+/-- line states (with both flag bits) fit `maskLineState` -/
+theorem transLCore_lt (st : Option Nat) (hst : ∀ s, st = some s → s < 64) (a b : Bool) (x : LbIn) (nu : Bool) :
+    (transLCore st a b x nu).1 < 256 := by
+  have hm : ∀ st' : Option Nat, (merge lbPacked lbAny prAny (lbAny, LineCanBreak, 310) st' x.prop).1 < 128 := by
+    intro st'
+    have := merge_lt lbPacked 64 lbAny prAny (lbAny, LineCanBreak, 310) lb_cells (by decide) st' x.prop
+    omega
+  have hor : ∀ s bit, s < 64 → (bit = lbZWJBit ∨ bit = 0) → s ||| bit < 128 := by
+    intro s bit hs hb
+    rcases hb with rfl | rfl
+    · exact Nat.or_lt_two_pow (n := 7) (by omega) (by decide)
+    · simp; omega
+  unfold transLCore
+  apply lbFin_lt
+  cases st with
+  | none =>
+    dsimp only [Option.isNone_none, Option.getD_none]
+    repeat' split
+    all_goals (try dsimp only)
+    all_goals first | decide | exact hm none
+  | some s =>
+    have hs := hst s rfl
+    dsimp only [Option.isNone_some, Option.getD_some]
+    repeat' split
+    all_goals (try dsimp only)
+    all_goals first | decide | exact hm _ | exact hor s _ hs (Or.inl rfl) | exact hor s _ hs (Or.inr rfl)
+
+theorem transL_lt (st : Option Nat) (hst : ∀ s, st = some s → s < 256) (x : LbIn) (nu : Bool) :
+    (transL st x nu).1 < 256 := by
+  unfold transL
+  apply transLCore_lt
+  intro s' hs'
+  cases st with
+  | none => simp [lbStrip] at hs'
+  | some s =>
+    have := lbStrip_lt s (hst s rfl)
+    rw [hs'] at this
+    simpa using this
+
 end Uniseg.Range
